@@ -846,7 +846,7 @@ fn assumptions() -> Vec<&'static str> {
     vec![
         "sampling, not proof: bounded node counts, run lengths and message sizes",
         "single-threaded execution: interleavings at await-point granularity only",
-        "TLS randomness (ring SystemRandom) is real; it changes packet contents only, never counts, order or sizes (determinism self-test)",
+        "TLS randomness (ring SystemRandom) is real; it changes packet contents only, not counts, order or sizes - except that quinn judges an Initial packet for a connection its endpoint has forgotten by unauthenticated, TLS-random bits (determinism self-test on the final state: 1 run in 3456 takes one of two legal paths; same history and verdict; DESIGN.md 13.5)",
         "quinn, rustls, tokio and the virtual clock behave as in production builds",
     ]
 }
